@@ -52,16 +52,21 @@ class Verdict(object):
 
     # ---- failures -------------------------------------------------------------------------
     def _explains(self, entry, failure):
+        """An open entry explains a failure iff its feature holds for the failing case and the failing
+        clause / manifestation are among the ones the entry lists ('*' = any)."""
         if entry.get('status') != 'open':
             return False
         if entry.get('feature') not in failure.get('features', []):
             return False
-        if entry.get('clause') not in (None, '*', failure.get('clause')):
-            return False
-        man = entry.get('manifestation')
-        if man not in (None, '*') and man != failure.get('manifestation'):
-            return False
-        return True
+
+        def among(val, spec):
+            if spec in (None, '*'):
+                return True
+            if isinstance(spec, (list, tuple)):
+                return val in spec
+            return val == spec
+        return among(failure.get('clause'), entry.get('clause')) and \
+            among(failure.get('manifestation'), entry.get('manifestation'))
 
     def failure(self, failure):
         for e in self.known:
